@@ -178,15 +178,41 @@ MatchOK(P, m, t) ==
        /\ Len(m.fp) = Len(m.rp)
        /\ Range(m.fp) = OccPos(u, t) /\ Cardinality(Range(m.fp)) = Len(m.fp)
        /\ Range(m.rp) = OccPos(RevComp(u), t) /\ Cardinality(Range(m.rp)) = Len(m.rp)
-\* smems(P,i,l): exactly the SMEMs covering i with length >= l, each once
-SmemsOK(P, i, l, ms, t) ==
+\* smems(P,i,l): exactly the SMEMs covering i with length >= l, each once.  M = Mems(P, t).
+Pairs(ms) == {<<ms[x].a, ms[x].n>> : x \in 1..Len(ms)}
+SmemsOKin(M, P, i, l, ms, t) ==
     /\ \A x \in 1..Len(ms) : MatchOK(P, ms[x], t)
-    /\ {<<ms[x].a, ms[x].n>> : x \in 1..Len(ms)} = Smems(P, i, l, t)
-    /\ Cardinality({<<ms[x].a, ms[x].n>> : x \in 1..Len(ms)}) = Len(ms)
+    /\ Pairs(ms) = {<<ab[1], ab[2] - ab[1]>> : ab \in {x \in M : x[1] <= i /\ i < x[2] /\ x[2] - x[1] >= l}}
+    /\ Cardinality(Pairs(ms)) = Len(ms)
+SmemsOK(P, i, l, ms, t) == SmemsOKin(Mems(P, t), P, i, l, ms, t)
 \* all_smems(P,l): every SMEM of length >= l at least once and nothing else
-AllSmemsOK(P, l, ms, t) ==
+AllSmemsOKin(M, P, l, ms, t) ==
     /\ \A x \in 1..Len(ms) : MatchOK(P, ms[x], t)
-    /\ {<<ms[x].a, ms[x].n>> : x \in 1..Len(ms)} = MemsMin(P, l, t)
+    /\ Pairs(ms) = {<<ab[1], ab[2] - ab[1]>> : ab \in {x \in M : x[2] - x[1] >= l}}
+AllSmemsOK(P, l, ms, t) == AllSmemsOKin(Mems(P, t), P, l, ms, t)
+
+(* The same set through the "longest occurring extension" table (occurrence of a substring is   *)
+(* monotone under shortening): MaxEnd[a] = largest b with P[a..b) occurring (a if none).          *)
+(* Equality with Mems is an MC lemma (SuffixIndexMC_C06!MemsFastLemma); used for long patterns.   *)
+MaxEnd(P, t) == [a1 \in 1..Len(P) |->
+                   LET a == a1 - 1 IN SetMax({a} \cup {b \in (a + 1)..Len(P) : Occurs(Sub(P, a, b), t)})]
+MemsFast(P, t) ==
+    LET me == Eager(MaxEnd(P, t)) IN
+    {ab \in (0..Len(P)) \X (0..Len(P)) :
+        /\ ab[1] < ab[2] /\ ab[1] < Len(P) /\ me[ab[1] + 1] = ab[2]
+        /\ (ab[1] = 0 \/ me[ab[1]] < ab[2])}
+
+\* an observed bi-interval iv = [f |-> <<lo,up>>, r |-> <<lo,up>>, fp, rp] is the bi-interval of w:
+\* both intervals have the size of the occurrence set of w and map (through the suffix array) to
+\* exactly the occurrences of w / of revcomp(w); size 0 iff w does not occur
+BiObservedOK(w, iv, t) ==
+    /\ Len(iv.f) = 2 /\ Len(iv.r) = 2
+    /\ LET size == iv.f[2] - iv.f[1] IN
+       /\ size >= 0 /\ iv.r[2] - iv.r[1] = size
+       /\ IF size = 0 THEN ~Occurs(w, t)
+          ELSE /\ Len(iv.fp) = size /\ Len(iv.rp) = size
+               /\ Range(iv.fp) = OccPos(w, t) /\ Cardinality(Range(iv.fp)) = size
+               /\ Range(iv.rp) = OccPos(RevComp(w), t) /\ Cardinality(Range(iv.rp)) = size
 
 \* rows (0-based) of the suffix array whose suffix starts with w
 RowsOf(w, t, sa) == {r \in 0..(Len(t) - 1) : OccursAt(w, t, sa[r + 1])}
